@@ -617,6 +617,7 @@ type Heap struct {
 	oldNow  string
 	keep    []string // refs of non-escaping local maps: untouched by this havoc (calls / loop bodies that do not update them)
 	keepE   []string // cells of effectively-final captured variables (written once by the enclosing function, only read by closures)
+	keepH   []string // refs of stack-allocated (non-escaping) locals of the running activations: no callee can write them
 }
 
 func (vc *VC) newHeap(kind int) *Heap {
@@ -692,6 +693,12 @@ func (vc *VC) lookup(h *Heap, fam string) string {
 			if len(h.keep) > 0 && strings.HasPrefix(fam, "M_") {
 				p := vc.lookup(h.parent, fam)
 				for _, r := range h.keep {
+					vc.assert("(= (select " + t + " " + r + ") (select " + p + " " + r + "))")
+				}
+			}
+			if len(h.keepH) > 0 && (strings.HasPrefix(fam, "H_") || strings.HasPrefix(fam, "E_")) && !vc.isGhostFam(fam) {
+				p := vc.lookup(h.parent, fam)
+				for _, r := range h.keepH {
 					vc.assert("(= (select " + t + " " + r + ") (select " + p + " " + r + "))")
 				}
 			}
